@@ -8,6 +8,7 @@ memory image, base address, capability word, argument and device state; the buil
 does not occur because the (fixed) code has no profile-dependent arithmetic left.
 -/
 import CamVerif.Proofs.C13
+import CamVerif.Proofs.C13More
 namespace CamVerif.C13
 open CamVerif CamVerif.RegMap
 
@@ -983,5 +984,497 @@ theorem sbrm_sirm_navigates (d : Dev) (base cap : Nat) :
           read_acc hr, h, if_false, Bool.true_eq_false, parse, parseNum_ok 8 _ (readBytes_length _ _ _), R.map]
         simp [hr]
   · simp [sbrmSirm, L0, RRow.run, hb]
+
+/-! ## 11. Strings (growth round) -/
+
+private theorem string_rows_ok :
+    (Gen.RegMap.accessors.all fun r => r.ty != .string ||
+      (match resolve r with
+       | some rr => rr.dec == .string && rr.len == 64
+       | none => false)) = true := by decide
+
+private theorem string_row (r : Row) (hr : r ∈ Gen.RegMap.accessors) (hty : r.ty = .string) (rr : RRow)
+    (hres : resolve r = some rr) : rr.dec = .string ∧ rr.len = 64 := by
+  have h := List.all_eq_true.mp string_rows_ok r hr
+  simpa [hty, hres] using h
+
+/-- **string_register_decodes**: for every string getter of the source and EVERY memory image
+whose register holds NUL-free, well-formed UTF-8 `s` (any multi-byte content) either filling
+the register completely with NO terminator, or followed by a NUL and arbitrary bytes after
+it: the getter returns exactly `s` — all 64 bytes in the unterminated case — after its one
+read. -/
+theorem string_register_decodes (r : Row) (hr : r ∈ Gen.RegMap.accessors) (hk : r.kind = .get)
+    (hty : r.ty = .string) :
+    ∃ rr, resolve r = some rr ∧ IsSpecRow rr ∧ rr.dec = .string ∧ rr.len = 64 ∧
+      ∀ (mem : Nat → UInt8) (base cap : Nat) (s : Bytes),
+        guardOpen rr cap = true → regAddr rr.base base rr.off + rr.len ≤ 2 ^ 64 →
+        validUtf8 s = true → (∀ b ∈ s, b ≠ 0) →
+        (readBytes mem (regAddr rr.base base rr.off) rr.len = s ∨
+         ∃ rest, readBytes mem (regAddr rr.base base rr.off) rr.len = s ++ 0 :: rest) →
+        rr.run base cap .none (fresh mem) =
+          (wrapOpt rr (.ok (.str s)),
+           ⟨mem, [⟨.R, regAddr rr.base base rr.off, rr.len,
+                    some (readBytes mem (regAddr rr.base base rr.off) rr.len)⟩], false⟩) := by
+  obtain ⟨rr, hres, hspec, _, H⟩ := accessor_reads_right_register r hr hk
+  obtain ⟨hdec, hlen⟩ := string_row r hr hty rr hres
+  refine ⟨rr, hres, hspec, hdec, hlen, ?_⟩
+  intro mem base cap s hg hfit hv hz hbytes
+  rw [H mem base cap hg hfit, hdec]
+  rcases hbytes with h | ⟨rest, h⟩
+  · rw [h, decode_string_full s hv hz]
+  · rw [h, decode_string_terminated s rest hv hz]
+
+/-- non-vacuity: `Abrm::model_name` on an image whose 64-byte register holds 32 × "é"
+(0xC3 0xA9), i.e. 64 bytes of multi-byte UTF-8 and no terminator, returns all 64 bytes -/
+example :
+    let s : Bytes := (List.replicate 32 [0xC3, 0xA9]).flatten
+    let mem : Nat → UInt8 := fun a => if 0x44 ≤ a ∧ a < 0x84 then (if (a - 0x44) % 2 = 0 then 0xC3 else 0xA9) else 0
+    ((⟨"Abrm.model_name", .abrm, .get, 0x44, 64, .string, none⟩ : RRow).run 0 0 .none (fresh mem)).1
+      = .ok (.str s) := by decide
+
+private theorem string_setters_abrm :
+    (Gen.RegMap.accessors.all fun r =>
+      (match resolve r with
+       | some rr => !(rr.dec == .string && rr.kind == .set) || rr.base == .abrm
+       | none => true)) = true := by decide
+
+/-- **string_register_roundtrip**: for every setter/getter pair of the source whose setter
+takes a string (`set_user_defined_name` / `user_defined_name`), every image, base,
+capability word with the guard open, every device-addressable register and EVERY byte
+string `name` (the UTF-8 bytes of the Rust `&str`):
+* if `name` is ASCII, NUL-free and `|name| ≤ register length` — INCLUDING `|name|` exactly
+  the register length, where no terminator is written — the setter performs exactly one
+  write, of `name` padded with NUL to the register length, and the paired getter run on the
+  resulting device returns exactly `name`;
+* otherwise (longer than the register, non-ASCII, or containing NUL) the setter returns
+  `InvalidData` and leaves the device — memory AND log — untouched, on ANY device state. -/
+theorem string_register_roundtrip (s g : String) (hp : (s, g) ∈ Gen.RegMap.pairs) :
+    ∃ rs rg, rowOf s = some rs ∧ rowOf g = some rg ∧ (rs.dec = .string →
+      rs.kind = .set ∧ rs.len = 64 ∧
+      ∀ (base cap : Nat) (name : Bytes), guardOpen rs cap = true →
+        ((name.all (· < 128) = true ∧ (∀ b ∈ name, b ≠ 0) ∧ name.length ≤ rs.len) →
+          ∀ (mem : Nat → UInt8), regAddr rs.base base rs.off + rs.len ≤ 2 ^ 64 →
+            rs.run base cap (.str name) (fresh mem) =
+              (.ok .unit,
+               ⟨writeMem mem (regAddr rs.base base rs.off) (name ++ List.replicate (rs.len - name.length) 0),
+                [⟨.W, regAddr rs.base base rs.off, rs.len,
+                   some (name ++ List.replicate (rs.len - name.length) 0)⟩], false⟩) ∧
+            (rg.run base cap .none (rs.run base cap (.str name) (fresh mem)).2).1 =
+              wrapOpt rg (.ok (.str name))) ∧
+        (¬ (name.all (· < 128) = true ∧ (∀ b ∈ name, b ≠ 0) ∧ name.length ≤ rs.len) →
+          ∀ (d : Dev), rs.run base cap (.str name) d = (.err .invalidData, d))) := by
+  obtain ⟨rs, rg, hrs, hrg, H⟩ := setter_getter s g hp
+  refine ⟨rs, rg, hrs, hrg, ?_⟩
+  intro hdec
+  obtain ⟨r, hr, fs⟩ := rowOf_facts hrs
+  have hpk := List.all_eq_true.mp all_pairs_ok (s, g) hp
+  unfold pairOkB at hpk
+  simp only [hrs, hrg, Bool.and_eq_true, beq_iff_eq] at hpk
+  obtain ⟨_, hclass⟩ := hpk
+  have hk : rs.kind = .set := by
+    cases hkk : rs.kind with
+    | get => simp [hkk] at hclass
+    | set => rfl
+    | setConst v => have := (fs.constDec v hkk).1; rw [hdec] at this; cases this
+  have hlen64 : rs.len = 64 := by rw [fs.len, hdec]; rfl
+  refine ⟨hk, hlen64, ?_⟩
+  intro base cap name hg
+  have hok : argOk rs.dec rs.kind (.str name) = true := by simp [argOk, hk, hdec]
+  have hne : rs.kind ≠ .get := by rw [hk]; simp
+  have hdi := dump_image rs (.str name) fs.len fs.setDec fs.constDec hne hok
+  constructor
+  · rintro ⟨h1, h2, h3⟩ mem hfit
+    have h2' : ¬ (0 : UInt8) ∈ name := fun h => h2 0 h rfl
+    have him : image rs (.str name) = some (name ++ List.replicate (rs.len - name.length) 0) := by
+      simp [image, hk, h1, h2', h3]
+    simp only [him, hk] at hdi
+    obtain ⟨hd, hbl⟩ := hdi
+    have hpos : 0 < rs.len := by omega
+    have hrun := setReg_ok rs base (.str name) (fresh mem) _ hd hbl rfl hpos hfit
+    simp only [fresh, List.nil_append] at hrun
+    have hrun' : rs.run base cap (.str name) (fresh mem) =
+        (.ok .unit,
+         ⟨writeMem mem (regAddr rs.base base rs.off) (name ++ List.replicate (rs.len - name.length) 0),
+          [⟨.W, regAddr rs.base base rs.off, rs.len,
+             some (name ++ List.replicate (rs.len - name.length) 0)⟩], false⟩) := by
+      simp only [RRow.run, hk, hg, if_true, fresh]
+      exact hrun
+    refine ⟨hrun', ?_⟩
+    have := (H mem base cap (.str name) _ hok hg hfit him).2
+    simpa [readBack, hk] using this
+  · intro hbad d
+    have him : image rs (.str name) = none := by
+      simp only [image, hk]
+      by_cases h1 : name.all (· < 128) = true
+      · by_cases h2 : (0 : UInt8) ∈ name
+        · simp [h1, h2]
+        · by_cases h3 : name.length ≤ rs.len
+          · exfalso; exact hbad ⟨h1, fun b hb h0 => h2 (h0 ▸ hb), h3⟩
+          · simp [h1, h2, h3]
+      · have : name.all (· < 128) = false := by simpa using h1
+        simp [this]
+    simp only [him, hk] at hdi
+    have habrm : rs.base = .abrm := by
+      have hb := List.all_eq_true.mp string_setters_abrm r hr
+      simpa [fs.resolved, hdec, hk] using hb
+    simp only [RRow.run, hk, hg, if_true, setReg, addrOf, habrm, hdi]
+
+/-- non-vacuity: a 64-byte ASCII name (no room for a terminator) round-trips; a 65-byte name
+is refused without a device access -/
+example :
+    let rs : RRow := ⟨"Abrm.set_user_defined_name", .abrm, .set, 0x184, 64, .string, some 0⟩
+    let rg : RRow := ⟨"Abrm.user_defined_name", .abrm, .get, 0x184, 64, .string, some 0⟩
+    let name : Bytes := List.replicate 64 0x41
+    (rg.run 0 1 .none (rs.run 0 1 (.str name) (fresh fun _ => 0xAA)).2).1 = .ok (.some (.str name)) ∧
+    (rs.run 0 1 (.str (List.replicate 65 0x41)) (fresh fun _ => 0xAA)).2.log = [] := by
+  decide
+
+/-! ## 12. Addresses (growth round) -/
+
+/-- direction of the one device access an accessor kind performs -/
+def dirOf : AccKind → Dir
+  | .get => .R
+  | _ => .W
+
+private theorem write_rej {d : Dev} {a : Nat} {buf : Bytes} (h : d.rejects a buf.length = true) :
+    d.write a buf = (.err .dev, logged d ⟨.W, a, buf.length, none⟩) := by
+  simp [Dev.write, h, logged]
+
+private theorem write_acc {d : Dev} {a : Nat} {buf : Bytes} (h : ¬ d.rejects a buf.length = true) :
+    d.write a buf = (.ok (), { d with mem := writeMem d.mem a buf,
+                                      log := d.log ++ [⟨.W, a, buf.length, some buf⟩] }) := by
+  simp [Dev.write, h]
+
+private theorem wrapOpt_err (rr : RRow) (e : Err) : wrapOpt rr (.err e) = .err e := by
+  cases h : rr.guardBit <;> simp [wrapOpt, h, R.map]
+
+private theorem set_one_access (rr : RRow) (base cap : Nat) (arg arg' : Arg) (d : Dev) (buf : Bytes)
+    (hg : guardOpen rr cap = true)
+    (hao : addrOf rr.base base rr.off = .ok (regAddr rr.base base rr.off))
+    (hd : dump rr.dec arg' rr.len = .ok buf) (hbl : buf.length = rr.len)
+    (hrun : rr.run base cap arg d = setReg rr base arg' d) (hk : rr.kind ≠ .get) :
+    ∃ data,
+      (rr.run base cap arg d).2.log =
+        d.log ++ [⟨dirOf rr.kind, regAddr rr.base base rr.off, rr.len, data⟩] ∧
+      (rr.run base cap arg d).2.broken = d.broken ∧
+      (data = none ↔ d.rejects (regAddr rr.base base rr.off) rr.len = true) ∧
+      (d.rejects (regAddr rr.base base rr.off) rr.len = true →
+        (rr.run base cap arg d).1 = .err .dev ∧ (rr.run base cap arg d).2.mem = d.mem) ∧
+      (rr.kind = .get → (rr.run base cap arg d).2.mem = d.mem) := by
+  have hdir : dirOf rr.kind = .W := by
+    cases h : rr.kind <;> simp_all [dirOf]
+  by_cases hrej : d.rejects (regAddr rr.base base rr.off) rr.len = true
+  · refine ⟨none, ?_⟩
+    have hw := write_rej (d := d) (a := regAddr rr.base base rr.off) (buf := buf) (by rw [hbl]; exact hrej)
+    have hval : rr.run base cap arg d = (.err .dev, logged d ⟨.W, regAddr rr.base base rr.off, rr.len, none⟩) := by
+      rw [hrun]; simp only [setReg, hao, hd, hw, hbl, R.map]
+    rw [hval, hdir]
+    simp [logged, hrej, hk]
+  · refine ⟨some buf, ?_⟩
+    have hw := write_acc (d := d) (a := regAddr rr.base base rr.off) (buf := buf) (by rw [hbl]; exact hrej)
+    have hval : rr.run base cap arg d =
+        (.ok .unit, { d with mem := writeMem d.mem (regAddr rr.base base rr.off) buf,
+                             log := d.log ++ [⟨.W, regAddr rr.base base rr.off, rr.len, some buf⟩] }) := by
+      rw [hrun]; simp only [setReg, hao, hd, hw, hbl, R.map]
+    rw [hval, hdir]
+    simp [hrej, hk]
+
+/-- **every_accessor_address_checked**: for EVERY accessor row of the source (all maps,
+getters and setters), every base, capability word with open guard, well-typed argument that
+has a byte image, and every device state `d` (any memory, any prior log, rejecting or not):
+1. if the register address `base + offset` is not representable in 64 bits (only possible
+   for SBRM / SIRM / manifest bases) the accessor returns `InvalidDevice` and the device is
+   exactly as before — no access;
+2. otherwise it performs EXACTLY ONE device access: the log grows by one entry, of the
+   accessor's direction, at `base + offset` (`offset` for the ABRM) with length exactly the
+   standard's register length; the entry carries data iff the device accepted; if the device
+   rejected, its error is returned and memory is unchanged; getters never change memory.
+(The code checks `base + offset`, not `base + offset + len`: a register that starts inside the
+address space and runs past its end IS attempted and it is the device that rejects it — a
+register ending exactly at 2^64 must be accessed, cf. seeded change C13-r2-seed1.) -/
+theorem every_accessor_address_checked (r : Row) (hr : r ∈ Gen.RegMap.accessors) :
+    ∃ rr, resolve r = some rr ∧ IsSpecRow rr ∧
+      ∀ (base cap : Nat) (arg : Arg) (d : Dev),
+        guardOpen rr cap = true → argOk rr.dec rr.kind arg = true →
+        (rr.kind ≠ .get → (image rr arg).isSome = true) →
+        ((rr.base ≠ .abrm ∧ 2 ^ 64 ≤ base + rr.off) → rr.run base cap arg d = (.err .invalidDevice, d)) ∧
+        ((rr.base = .abrm ∨ base + rr.off < 2 ^ 64) →
+          ∃ data,
+            (rr.run base cap arg d).2.log =
+              d.log ++ [⟨dirOf rr.kind, regAddr rr.base base rr.off, rr.len, data⟩] ∧
+            (rr.run base cap arg d).2.broken = d.broken ∧
+            (data = none ↔ d.rejects (regAddr rr.base base rr.off) rr.len = true) ∧
+            (d.rejects (regAddr rr.base base rr.off) rr.len = true →
+              (rr.run base cap arg d).1 = .err .dev ∧ (rr.run base cap arg d).2.mem = d.mem) ∧
+            (rr.kind = .get → (rr.run base cap arg d).2.mem = d.mem)) := by
+  obtain ⟨rr, f⟩ := row_facts r hr
+  obtain ⟨a, ha, _, har⟩ := f.spec
+  refine ⟨rr, f.resolved, ⟨a, ha, har⟩, ?_⟩
+  intro base cap arg d hg hok him
+  constructor
+  · rintro ⟨hb, hov⟩
+    have hao := addrOf_overflow rr.base base rr.off hb hov
+    unfold RRow.run
+    cases hk : rr.kind with
+    | get =>
+      cases hgb : rr.guardBit with
+      | none => simp [getReg, hao]
+      | some bit =>
+        have : cap.testBit bit = true := by simpa [guardOpen, hgb] using hg
+        simp [this, getReg, hao, R.map]
+    | set => simp [hg, setReg, hao]
+    | setConst v => simp [hg, setReg, hao]
+  · intro haddr
+    have hao := addrOf_ok rr.base base rr.off haddr
+    cases hk : rr.kind with
+    | get =>
+      have hrun : rr.run base cap arg d =
+          ((wrapOpt rr ((readRegister d (regAddr rr.base base rr.off) rr.len rr.dec).1)),
+           (readRegister d (regAddr rr.base base rr.off) rr.len rr.dec).2) := by
+        unfold RRow.run
+        rw [hk]
+        cases hgb : rr.guardBit with
+        | none => simp [getReg, hao, wrapOpt, hgb]
+        | some bit =>
+          have : cap.testBit bit = true := by simpa [guardOpen, hgb] using hg
+          simp [this, getReg, hao, wrapOpt, hgb]
+      by_cases hrej : d.rejects (regAddr rr.base base rr.off) rr.len = true
+      · refine ⟨none, ?_⟩
+        have hval : rr.run base cap arg d =
+            (.err .dev, logged d ⟨.R, regAddr rr.base base rr.off, rr.len, none⟩) := by
+          rw [hrun]; simp only [readRegister, read_rej hrej, wrapOpt_err]
+        rw [hval]
+        simp [logged, dirOf, hrej]
+      · refine ⟨some (readBytes d.mem (regAddr rr.base base rr.off) rr.len), ?_⟩
+        have hval : rr.run base cap arg d =
+            (wrapOpt rr (parse rr.dec (readBytes d.mem (regAddr rr.base base rr.off) rr.len)),
+             logged d ⟨.R, regAddr rr.base base rr.off, rr.len,
+               some (readBytes d.mem (regAddr rr.base base rr.off) rr.len)⟩) := by
+          rw [hrun]; simp only [readRegister, read_acc hrej]
+        rw [hval]
+        simp [logged, dirOf, hrej]
+    | set =>
+      have hne : rr.kind ≠ .get := by rw [hk]; simp
+      have hdi := dump_image rr arg f.len f.setDec f.constDec hne hok
+      have hsome := him hne
+      cases himg : image rr arg with
+      | none => simp [himg] at hsome
+      | some buf =>
+        simp only [himg, hk] at hdi
+        obtain ⟨hd, hbl⟩ := hdi
+        have h1 := set_one_access rr base cap arg arg d buf hg hao hd hbl (by simp [RRow.run, hk, hg]) (by simp [hk])
+        rw [hk] at h1
+        exact h1
+    | setConst v =>
+      have hne : rr.kind ≠ .get := by rw [hk]; simp
+      have hdi := dump_image rr arg f.len f.setDec f.constDec hne hok
+      have hsome := him hne
+      cases himg : image rr arg with
+      | none => simp [himg] at hsome
+      | some buf =>
+        simp only [himg, hk] at hdi
+        obtain ⟨hd, hbl⟩ := hdi
+        have h1 := set_one_access rr base cap arg (.nat v) d buf hg hao hd hbl (by simp [RRow.run, hk, hg]) (by simp [hk])
+        rw [hk] at h1
+        exact h1
+
+/-- non-vacuity: both branches are inhabited by generated rows (a SIRM getter at a base
+where `base + offset` overflows; the same getter at base 0x1000) -/
+example : ∃ r ∈ Gen.RegMap.accessors, ∃ rr, resolve r = some rr ∧
+    (rr.base ≠ .abrm ∧ 2 ^ 64 ≤ (2 ^ 64 - 1) + rr.off) ∧ (rr.base = .abrm ∨ 0x1000 + rr.off < 2 ^ 64) :=
+  ⟨⟨"Sirm.maximum_trailer_size", .sirm, .get, "sirm", "MAXIMUM_TRAILER_SIZE", .u32, none⟩, by decide,
+    _, rfl, by decide, by decide⟩
+
+/-- **sha1_hash_address** (the accessor that bypasses the struct's `read_register` helper and
+forms its address itself, cf. seeded change C13-r3-seed1): on any device state,
+`ManifestEntry::sha1_hash` of the entry at `entry` returns `InvalidDevice` without access iff
+`entry + 0x18` is not representable, and otherwise performs exactly one read of the 20 bytes at
+`entry + 0x18`: a rejecting device's error is returned, all-zero bytes are `None`, anything else
+`Some(bytes)`. -/
+theorem sha1_hash_address (d : Dev) (entry cap : Nat) :
+    ∃ rr, rowOf "ManifestEntry.sha1_hash" = some rr ∧
+      rr.run entry cap .none d =
+        if 2 ^ 64 ≤ entry + 0x18 then (.err .invalidDevice, d)
+        else if d.rejects (entry + 0x18) 20 = true then (.err .dev, logged d ⟨.R, entry + 0x18, 20, none⟩)
+        else (.ok (if (readBytes d.mem (entry + 0x18) 20).all (· == 0) then .none
+                   else .some (.hash (readBytes d.mem (entry + 0x18) 20))),
+              logged d ⟨.R, entry + 0x18, 20, some (readBytes d.mem (entry + 0x18) 20)⟩) := by
+  refine ⟨⟨"ManifestEntry.sha1_hash", .manifestEntry, .get, 0x18, 20, .sha1, none⟩, by decide, ?_⟩
+  by_cases h : 2 ^ 64 ≤ entry + 0x18
+  · have : ¬ entry + 0x18 < 2 ^ 64 := by omega
+    simp [RRow.run, getReg, addrOf, registerAddress, this, h]
+  · have h1 : entry + 0x18 < 2 ^ 64 := by omega
+    by_cases hr : d.rejects (entry + 0x18) 20 = true
+    · simp only [RRow.run, getReg, addrOf, registerAddress, h1, if_true, readRegister, read_rej hr, h, if_false, hr]
+    · simp only [RRow.run, getReg, addrOf, registerAddress, h1, if_true, readRegister, read_acc hr, h, if_false, parse]
+      simp [hr]
+
+private theorem entry_rows_ok :
+    (Gen.RegMap.accessors.all fun r => r.base != .manifestEntry ||
+      (match resolve r with
+       | some rr => rr.base == .manifestEntry && rr.guardBit == none && rr.kind == .get &&
+                    decide (rr.off + rr.len ≤ Spec.U3V.MANIFEST_ENTRY_SIZE)
+       | none => false)) = true := by decide
+
+/-- **manifest_entry_walk**: whenever `ManifestTable::entries` succeeds for the table at `tb`
+with `n` entries (i.e. `tb + 8 + 64 n ≤ 2^64`, INCLUDING a table that ends exactly at 2^64),
+every accessor of EVERY entry `i < n` the iterator yields (entry address `tb + 8 + 64 i`) lies
+inside the address space: it performs exactly one read of the standard's register at
+`tb + 8 + 64 i + offset` and returns the standard's decoding — no overflow error and no
+rejected access can occur inside a table that `entries` accepted. -/
+theorem manifest_entry_walk (r : Row) (hr : r ∈ Gen.RegMap.accessors) (hb : r.base = .manifestEntry) :
+    ∃ rr, resolve r = some rr ∧ IsSpecRow rr ∧ rr.off + rr.len ≤ 64 ∧
+      ∀ (mem : Nat → UInt8) (tb n i cap : Nat), tb + 8 + 64 * n ≤ 2 ^ 64 → i < n →
+        rr.run (entryAddr (tb + 8) i) cap .none (fresh mem) =
+          (Spec.U3V.decode rr.dec (readBytes mem (tb + 8 + 64 * i + rr.off) rr.len),
+           ⟨mem, [⟨.R, tb + 8 + 64 * i + rr.off, rr.len,
+                    some (readBytes mem (tb + 8 + 64 * i + rr.off) rr.len)⟩], false⟩) := by
+  have h := List.all_eq_true.mp entry_rows_ok r hr
+  cases hres : resolve r with
+  | none => simp [hb, hres] at h
+  | some rr =>
+    simp only [hb, hres, bne_self_eq_false, Bool.false_or, Bool.and_eq_true, beq_iff_eq,
+      Spec.U3V.MANIFEST_ENTRY_SIZE] at h
+    obtain ⟨⟨⟨hbase, hgb⟩, hkind⟩, hsz0⟩ := h
+    have hsz : rr.off + rr.len ≤ 64 := of_decide_eq_true hsz0
+    obtain ⟨rr', hres', hspec, _, H⟩ := accessor_reads_right_register r hr
+      (by obtain ⟨rr2, f⟩ := row_facts r hr
+          have : rr2 = rr := Option.some.inj (f.resolved.symm.trans hres)
+          rw [← f.kind, this]; exact hkind)
+    have hrr : rr' = rr := Option.some.inj (hres'.symm.trans hres)
+    subst hrr
+    refine ⟨rr', rfl, hspec, hsz, ?_⟩
+    intro mem tb n i cap hfit hi
+    have hA : regAddr rr'.base (entryAddr (tb + 8) i) rr'.off = tb + 8 + 64 * i + rr'.off := by
+      simp [regAddr, hbase, entryAddr]; omega
+    have hg : guardOpen rr' cap = true := by simp [guardOpen, hgb]
+    have := H mem (entryAddr (tb + 8) i) cap hg (by rw [hA]; omega)
+    rw [this, hA]
+    simp [wrapOpt, hgb]
+
+/-- non-vacuity: the last entry of a two-entry table that ends exactly at 2^64 -/
+example : (2 ^ 64 - 136) + 8 + 64 * 2 ≤ 2 ^ 64 ∧ entryAddr ((2 ^ 64 - 136) + 8) 1 + 64 = 2 ^ 64 := by
+  decide
+
+/-! ## 13. Arbitrary devices (growth round)
+
+`ADev σ ε` (`Proofs/C13More.lean`) is ANY `DeviceControl`: arbitrary state type, error values
+and transition function (errors may depend on address, length, history; reads may be short).
+`RRow.runG` is the uniform accessor body over such a device. -/
+
+/-- **generic_accessor_is_model**: for every accessor row of the source, the generic accessor
+run on the model's own logging memory device returns exactly what `RRow.run` — the function
+the differential harness compares with the real crate — returns (device errors as
+`dev ()`), with the same final device.  So the statements below are about the same accessor
+the correspondence run ties to the Rust code. -/
+theorem generic_accessor_is_model (r : Row) (hr : r ∈ Gen.RegMap.accessors) :
+    ∃ rr, resolve r = some rr ∧
+      ∀ (base cap : Nat) (arg : Arg) (d : Dev),
+        rr.runG concreteDev base cap arg d = (toG (rr.run base cap arg d).1, (rr.run base cap arg d).2) := by
+  obtain ⟨rr, f⟩ := row_facts r hr
+  exact ⟨rr, f.resolved, fun base cap arg d => runG_concrete rr base cap arg d⟩
+
+/-- **device_error_returned_unchanged**: for EVERY accessor row of the source and an ARBITRARY
+device (any state machine, any error type): if the one device call the accessor makes — the
+read of `(base + offset, len)` for a getter, the write of the argument's byte image there for
+a setter — fails with the device's error `e` and leaves the device in state `st'`, the
+accessor returns exactly that error `e` (not translated, not swallowed) and the device is in
+exactly `st'`: no retry, no second call, whatever the error depends on. -/
+theorem device_error_returned_unchanged (r : Row) (hr : r ∈ Gen.RegMap.accessors) :
+    ∃ rr, resolve r = some rr ∧ IsSpecRow rr ∧
+      ∀ {σ ε : Type} (A : ADev σ ε) (base cap : Nat) (arg : Arg) (st st' : σ) (e : ε),
+        guardOpen rr cap = true → argOk rr.dec rr.kind arg = true →
+        (rr.base = .abrm ∨ base + rr.off < 2 ^ 64) →
+        (match rr.kind, image rr arg with
+         | .get, _ => A.read st (regAddr rr.base base rr.off) rr.len = (.error e, st')
+         | _, some buf => A.write st (regAddr rr.base base rr.off) buf = (.error e, st')
+         | _, none => False) →
+        rr.runG A base cap arg st = (.err (.dev e), st') := by
+  obtain ⟨rr, f⟩ := row_facts r hr
+  obtain ⟨a, ha, _, har⟩ := f.spec
+  refine ⟨rr, f.resolved, ⟨a, ha, har⟩, ?_⟩
+  intro σ ε A base cap arg st st' e hg hok haddr hcall
+  have hao := addrOf_ok rr.base base rr.off haddr
+  cases hk : rr.kind with
+  | get =>
+    simp only [hk] at hcall
+    exact runG_get_dev_error A rr hk base cap arg st st' e _ hg hao hcall
+  | set =>
+    have hne : rr.kind ≠ .get := by rw [hk]; simp
+    have hdi := dump_image rr arg f.len f.setDec f.constDec hne hok
+    cases himg : image rr arg with
+    | none => simp [hk, himg] at hcall
+    | some buf =>
+      simp only [hk, himg] at hcall hdi
+      rw [runG_set A rr base cap arg arg st buf _ hg (Or.inl ⟨hk, rfl⟩) hao hdi.1, hcall]
+  | setConst v =>
+    have hne : rr.kind ≠ .get := by rw [hk]; simp
+    have hdi := dump_image rr arg f.len f.setDec f.constDec hne hok
+    cases himg : image rr arg with
+    | none => simp [hk, himg] at hcall
+    | some buf =>
+      simp only [hk, himg] at hcall hdi
+      rw [runG_set A rr base cap arg (.nat v) st buf _ hg (Or.inr ⟨v, hk, rfl⟩) hao hdi.1, hcall]
+
+/-- **device_read_decoded**: for every getter row of the source and an ARBITRARY device: if
+the one read of `(base + offset, len)` succeeds having stored `bs` into the buffer, the
+accessor returns the standard's decoding of the `len`-byte buffer contents — `bs` itself when
+the device delivered exactly `len` bytes, `bs` zero-padded when the read was SHORT (the
+buffer is `vec![0; len]`), the first `len` bytes when it delivered more — and the device is in
+the state that read left it in.  The result does not depend on anything else the device does. -/
+theorem device_read_decoded (r : Row) (hr : r ∈ Gen.RegMap.accessors) (hk : r.kind = .get) :
+    ∃ rr, resolve r = some rr ∧ IsSpecRow rr ∧
+      ∀ {σ ε : Type} (A : ADev σ ε) (base cap : Nat) (st st' : σ) (bs : Bytes),
+        guardOpen rr cap = true → (rr.base = .abrm ∨ base + rr.off < 2 ^ 64) →
+        A.read st (regAddr rr.base base rr.off) rr.len = (.ok bs, st') →
+        rr.runG A base cap .none st =
+          (wrapG rr (liftR (Spec.U3V.decode rr.dec (fill rr.len bs))), st') := by
+  obtain ⟨rr, f⟩ := row_facts r hr
+  obtain ⟨a, ha, _, har⟩ := f.spec
+  refine ⟨rr, f.resolved, ⟨a, ha, har⟩, ?_⟩
+  intro σ ε A base cap st st' bs hg haddr hread
+  have hao := addrOf_ok rr.base base rr.off haddr
+  have hkind : rr.kind = .get := f.kind.trans hk
+  rw [runG_get_ok A rr hkind base cap .none st st' bs _ hg hao hread,
+    parse_eq_decode _ _ (by simp [f.len]) f.wf]
+
+/-- **device_write_accepted**: for every setter row and an arbitrary device: if the one write
+of the argument's byte image at `(base + offset)` succeeds, the setter returns `Ok(())` and the
+device is in the state that write left it in. -/
+theorem device_write_accepted (r : Row) (hr : r ∈ Gen.RegMap.accessors) (hk : r.kind ≠ .get) :
+    ∃ rr, resolve r = some rr ∧ IsSpecRow rr ∧
+      ∀ {σ ε : Type} (A : ADev σ ε) (base cap : Nat) (arg : Arg) (st st' : σ) (buf : Bytes),
+        guardOpen rr cap = true → argOk rr.dec rr.kind arg = true →
+        (rr.base = .abrm ∨ base + rr.off < 2 ^ 64) → image rr arg = some buf →
+        A.write st (regAddr rr.base base rr.off) buf = (.ok (), st') →
+        rr.runG A base cap arg st = (.ok .unit, st') := by
+  obtain ⟨rr, f⟩ := row_facts r hr
+  obtain ⟨a, ha, _, har⟩ := f.spec
+  refine ⟨rr, f.resolved, ⟨a, ha, har⟩, ?_⟩
+  intro σ ε A base cap arg st st' buf hg hok haddr himg hw
+  have hao := addrOf_ok rr.base base rr.off haddr
+  have hne : rr.kind ≠ .get := by rw [f.kind]; exact hk
+  have hdi := dump_image rr arg f.len f.setDec f.constDec hne hok
+  simp only [himg] at hdi
+  cases hkk : rr.kind with
+  | get => exact absurd hkk hne
+  | set =>
+    simp only [hkk] at hdi
+    rw [runG_set A rr base cap arg arg st buf _ hg (Or.inl ⟨hkk, rfl⟩) hao hdi.1, hw]
+  | setConst v =>
+    simp only [hkk] at hdi
+    rw [runG_set A rr base cap arg (.nat v) st buf _ hg (Or.inr ⟨v, hkk, rfl⟩) hao hdi.1, hw]
+
+/-- non-vacuity: a device whose state counts calls, which fails every third call with the
+call number as error value and otherwise delivers a SHORT read of two bytes: the u32 getter
+returns the zero-padded value on the first call and the device's own error on the third -/
+example :
+    let A : ADev Nat Nat :=
+      { read := fun n _ _ => if (n + 1) % 3 = 0 then (.error (n + 1), n + 1) else (.ok [0x34, 0x12], n + 1),
+        write := fun n _ _ => (.ok (), n + 1) }
+    let rr : RRow := ⟨"Sirm.maximum_trailer_size", .sirm, .get, 0x2C, 4, .u32, none⟩
+    rr.runG A 0x1000 0 .none 0 = (.ok (.nat 0x1234), 1) ∧
+    rr.runG A 0x1000 0 .none 2 = (.err (.dev 3), 3) := by
+  decide
 
 end CamVerif.C13
